@@ -144,7 +144,7 @@ def ensure_facts(cfg_name, quiet=True):
         if os.path.exists(sp) and open(sp).read() == stamp:
             os.utime(sp, None)
             return out_dir
-        _prune(os.path.join(BUILD, "facts"), cfg_name + "-", keep=6)
+        _prune(os.path.join(BUILD, "facts"), cfg_name + "-", keep=int(os.environ.get("VERIF_FACTS_KEEP", "24")))
         t0 = time.time()
         _run_driver(REPO, cfg_name, CONFIGS[cfg_name], out_dir, tgt_dir, src_hash, ["--tests"],
                     ["slotted_egraphs", "entry"], ["slotted-egraphs-", "slotted_egraphs-"])
